@@ -20,6 +20,39 @@ def run(ctx):
     nv, rej, _ = validate_observations('Container_Val', obs, ctx.workdir, name='c03val', timeout=3000)
     ctx.traces += nv
     report(ctx, 'C03', rej, files_of)
+    # the metadata commands of the command-line interface print the sections of the dump as JSON
+    import json
+    import os
+    from click.testing import CliRunner
+    from pykdebugparser.__main__ import cli
+    from .container import encode_file
+    ncli = 0
+    for oid in list(files_of)[:30 if ctx.quick else 400]:
+        hist, via, _ = files_of[oid]
+        f = hist[-1]
+        if f['ver'] != 3:
+            continue
+        path = os.path.join(ctx.workdir, 'meta.bin')
+        with open(path, 'wb') as fh:
+            fh.write(encode_file(f)[0])
+        procs = [b['val'] for b in f['blocks'] if b['tag'] == 'procs']
+        imgs = [b['val'] for b in f['blocks'] if b['tag'] == 'images']
+        kexts = [x for b in f['blocks'] if b['tag'] == 'kexts' for x in b['bins']]
+        want = {'processes': {'val': procs[-1]} if procs else {}, 'images': {'val': imgs[-1]} if imgs else {},
+                'kexts': {'Binaries': [{'id': x} for x in kexts]}}
+        for cmd in ('processes', 'images', 'kexts'):
+            res = CliRunner().invoke(cli, [cmd, path])
+            ncli += 1
+            try:
+                got = json.loads(res.output)
+            except ValueError:
+                got = 'not JSON: %r' % res.output[:100]
+            if res.exit_code != 0 or got != want[cmd]:
+                ctx.violation('C03/cli-metadata/%s' % cmd, 'command `%s` printed %r, the dump holds %r' % (cmd, got, want[cmd]),
+                              {'kind': 'container', 'via': 'cli', 'parse_index': 0, 'files_hex': [encode_file(f)[0].hex()],
+                               'file': {a: b for a, b in f.items() if not a.startswith('_')}})
+        os.unlink(path)
+    ctx.extra['cli_metadata_commands'] = ncli
     ctx.sample({'file': obs[1]['parses'][0]['file']})
     ctx.extra['code_to_spec'] = {'histories': nv, 'parses': sum(len(o['parses']) for o in obs)}
     ctx.assumptions += ['v3 encoder follows the declarative layouts of kd_buf_parser.py (no independent reference)',
